@@ -1,4 +1,5 @@
 import RsModel.Lemmas.EqHash
+import RsModel.Lemmas.EqViews
 /-!
 # C14 — equality, hashing and cloning are coherent and history-independent
 -/
@@ -36,5 +37,30 @@ theorem c14_callsT_leaf (tbl : Nat → Nat) (fxh : List HCall → Nat) (t name :
     (Src.orig t name).callsT tbl = (Src.orig t name).calls fxh := by simp [Src.callsT, Src.calls]
 
 example : (Src.rawBuf [255] [239, 191, 189]).eqv (.rawBuf [255] []) = true := by decide
+
+
+/-- **`a == b` implies equal answers from the observers that never look at a cache**: text, bytes, size and rope.
+(`from_utf8_lossy` is a function `f` of the bytes.) -/
+theorem c14_eq_views (f : Text → Text) (a b : Src) (h : a.eqv b = true) (ha : a.LossyFun f) (hb : b.LossyFun f) :
+    a.src = b.src ∧ a.buffer = b.buffer ∧ a.size = b.size ∧ a.rope = b.rope := by
+  have he := Src.eqv_erase f a b h ha hb
+  obtain ⟨a1, a2, a3, a4⟩ := Src.erase_views a
+  obtain ⟨b1, b2, b3, b4⟩ := Src.erase_views b
+  rw [he] at a1 a2 a3 a4
+  exact ⟨a1.symm.trans b1, a2.symm.trans b2, a3.symm.trans b3, a4.symm.trans b4⟩
+
+/-- **for values that own no cache, `a == b` is identity**: the two values are the same tree, so *every* observer —
+`map`, chunk streaming with either column setting, hashing, in any order and from any cache state of enclosing
+sources — answers identically.  (For trees containing a `CachedSource` the two values own different caches; what can
+differ then is exactly known finding K3.) -/
+theorem c14_eq_identity (f : Text → Text) (a b : Src) (h : a.eqv b = true) (ha : a.LossyFun f) (hb : b.LossyFun f)
+    (na : a.NoCached) (nb : b.NoCached) : a = b := by
+  have he := Src.eqv_erase f a b h ha hb
+  rwa [Src.erase_noCached a na, Src.erase_noCached b nb] at he
+
+theorem c14_eq_observers (f : Text → Text) (a b : Src) (h : a.eqv b = true) (ha : a.LossyFun f) (hb : b.LossyFun f)
+    (na : a.NoCached) (nb : b.NoCached) (o : Opts) (σ : Store) :
+    a.stream o σ = b.stream o σ ∧ a.map o σ = b.map o σ := by
+  rw [c14_eq_identity f a b h ha hb na nb]; exact ⟨rfl, rfl⟩
 
 end Rs
